@@ -75,6 +75,40 @@ func genC07(g *G, n int, out io.Writer, full bool) {
 			emit("kind:"+k, si, prof)
 		}
 	}
+	// the same matrix for the constraints that take a SECOND path, with tabs, line breaks and runs of blanks as the optional
+	// whitespace of both paths (the text of a path is quoted in the generated code in more than one place)
+	for wi, ws := range []string{"\t", "\n", "  ", " \t ", "\r\n"} {
+		w := ws
+		pathWhitespace = func() string { return w }
+		for _, k := range []string{"lessThanProperty", "lessThanOrEqualsToProperty", "equalsToProperty", "disjointWithProperty", "moreThanProperty", "moreThanOrEqualsToProperty", "minCount", "pattern", "in"} {
+			sh := Path{Seq: []Path{PP("p0", false), {Alt: []Path{PP("p1", false), PP("p2", true)}}}}
+			a := atomOfKind(k, sh)
+			if a.Other != nil {
+				o := Path{Seq: []Path{PP("p3", false), PP("p1", false)}}
+				a.Other = &o
+			}
+			prof := ProfileSpec{Atoms: []Atom{a}, Paths: []Path{sh}}
+			prof.Validations = []Validation{
+				{Name: "plain", Class: NS + "T", Rule: Rule{Atom: ip(0)}},
+				{Name: "negated", Class: NS + "T", Rule: Rule{Not: &Rule{Atom: ip(0)}}},
+				{Name: "nested", Class: NS + "T", Rule: Rule{Nested: &Rule{Atom: ip(0)}, PathIx: ip(0)}},
+			}
+			emit("path-whitespace:"+k, wi, prof)
+		}
+		pathWhitespace = nil
+	}
+	// one validation listed under two levels, alone in the second one (and next to another validation)
+	for li, lv := range [][2]string{{"violation", "warning"}, {"warning", "info"}, {"violation", "info"}} {
+		for _, alone := range []bool{true, false} {
+			prof := ProfileSpec{Atoms: []Atom{atomOfKind("minCount", PP("p0", false))}}
+			prof.Validations = []Validation{{Name: "twice", Class: NS + "T", Rule: Rule{Atom: ip(0)}}, {Name: "other", Class: NS + "T", Rule: Rule{Not: &Rule{Atom: ip(0)}}}}
+			prof.Levels = map[string][]string{lv[0]: {"twice", "other"}, lv[1]: {"twice"}}
+			if !alone {
+				prof.Levels[lv[1]] = []string{"other", "twice"}
+			}
+			emit("two-levels", li*2+map[bool]int{true: 0, false: 1}[alone], prof)
+		}
+	}
 	// list constraints with an EMPTY list (legal YAML; nothing is allowed / nothing is required)
 	for _, k := range []string{"in", "containsAll", "containsSome"} {
 		a := atomOfKind(k, PP("p0", false))
